@@ -146,6 +146,19 @@ def run_case(case, cfg, out):
         I = ifaces[i]
         iro = [iidx[id(x)] for x in I.__iro__ if x is not Interface]
         out.checks += 1
+        # the order itself, against the textbook C3 of the CURRENT bases
+        # (after a re-base higher up a descendant may keep a stale order,
+        # and then resolves names along it)
+        try:
+            want = models.c3(bases, i, {})
+        except models.Inconsistent:
+            want = None
+        if want is not None and want != iro:
+            out.fail('iro-not-current',
+                     '%s: interface %d resolves along %r, the C3 order of '
+                     'its current bases %r is %r' % (stage, i, iro, bases,
+                                                     want))
+            return
         present = {}
         for name in NAMES:
             definers = [j for j in iro if ifaces[j].direct(name) is not None]
